@@ -4,17 +4,23 @@
                                 edge is recorded on both paths - the edges are what the reload's importer closure follows.
   start_global_contexts         (proof) started iff the context is a file/apps/modules/scripts context and equals or is below the
                                 requested name (or no name / '*').
-  load_scripts                  (proof, loop contracts over symbolic maps of arbitrary size) the changed-set block: a context is
-                                discarded iff it is loaded and its file is gone or its source / mtime / app configuration differ; a
-                                file is forced iff it changed, or is new and auto-loaded; '*' and a named reload as documented; only
-                                force flags are written.  The delete loop removes exactly the discarded loaded contexts (stopped once);
-                                the load loop loads exactly the auto-loaded forced files with the file's source / mtime / config.
-                                The slices are cut mechanically out of load_scripts' body (from `ctx_delete = ...` to
-                                `will_reload = ...`, and the two loops by their iterables) on every run.
-                                NOT proved: the importer closure (import_recurse) and the package widening in between - their
-                                invariants need an existential over the visited set; they are covered by the BOUNDED native
-                                differential on real directory trees (random edit / reload histories against the statement's rules
-                                computed independently), which also exercises glob_read_files' naming, '#'-skipping and app gating.
+  load_scripts                  (proof, loop contracts over symbolic maps of arbitrary size, slices cut mechanically out of the body of
+                                load_scripts on every run, each from an ARBITRARY state so that the blocks compose)
+                                  changed-set     discarded iff loaded and (file gone or source / mtime / app config differ); forced iff
+                                                  changed, or new and auto-loaded; '*' and a named reload as documented
+                                  will_reload     r in will_reload iff some discarded-or-forced file under modules. has root r
+                                                  (existential by a ghost witness function maintained by the loop contract)
+                                  importers       a loaded context is additionally discarded (and its file forced) iff a module in
+                                                  closure(context) has its root in will_reload, where closure is the ASSUMED result of
+                                                  import_recurse (the transitive closure of the recorded import edges); nested loop
+                                                  contracts with a witness per context
+                                  package widening  a package (apps.X / modules.X) with a forced file is discarded whole and only its top
+                                                  file stays forced; everything else keeps its decision (nested loop contracts)
+                                  delete / load   exactly the discarded loaded contexts are stopped and removed once; exactly the
+                                                  auto-loaded forced files are loaded, with the file's source / mtime / config
+                                NOT proved: import_recurse itself (memoised DFS; the closure is not first-order), file discovery
+                                (glob_read_files: naming, '#'-skipping, app gating) and whole edit/reload histories - covered by the
+                                BOUNDED native differential on real directory trees.
 """
 from __future__ import annotations
 
@@ -29,7 +35,7 @@ from .common import A_LOG, PKG, logger_stub, run_catching, World
 from . import C11 as c11
 
 PROPERTY = "C10"
-LEVEL_CATEGORY = "exploration"   # the middle of the reload decision is covered by a bounded differential only
+LEVEL_CATEGORY = "proof"   # the decision block is proved piecewise; discovery, import_recurse and whole histories are bounded stand-ins
 EXPLORATION_RULE = ("each evaluation is one reload (None / a context name / '*') after 0-2 random edits (modify, touch, create, delete, '#'-rename, "
                     "un-rename, app-config change) of an 11-file tree, run by the real load_scripts on a real directory; a case is non-trivial when "
                     "the statement's rules require at least one context to be discarded or loaded, and distinct by (reload argument, set of contexts "
@@ -43,17 +49,17 @@ ASSUMPTIONS = [
     "running a script (GlobalContextMgr.load_file) is C01-C03 / C18 territory; here a load succeeds unless an import is missing",
     "contexts are visited once per dictionary iteration",
 ]
-NOT_DECIDED = ["importer closure (import_recurse) and package widening for ALL trees: only the bounded differential explores them",
+NOT_DECIDED = ["import_recurse (the transitive closure itself) and glob_read_files (discovery, naming, '#', app gating): bounded differential only",
                "a module that is no longer imported by anyone but whose file is unchanged stays loaded: the statement's first sentence "
                "('exactly ... plus the modules they import') and its second ('leaves all other contexts untouched') disagree on it; "
                "the reference follows the second",
                "a reload while scripts are still starting (ordering with start_global_contexts of a previous reload)"]
 SHAPE_BOUNDS = {"tree": "11 files: 2 top-level, 2 scripts (one nested), app module + app package with helper, module, module package with "
                         "sub-module, second module; import chain of depth 3"}
-LEVEL_TEXT = ("Mixed, claimed at the exploration level because the middle of the reload decision is not proved: module_import, "
-              "start_global_contexts, the changed-set block (loop invariants, maps of any size), the delete loop and the load loop are "
-              "proofs; the importer closure, package widening, file discovery and the composition over whole histories are a BOUNDED "
-              "differential on real trees (modify, touch, create, delete, '#'-rename, app-config change; reload None / name / '*').")
+LEVEL_TEXT = ("Proof of the reload decision block by block (changed set, module roots to reload, importer closure relative to the assumed "
+              "result of import_recurse, package widening, delete loop, load loop: loop contracts over maps of any size), of module_import "
+              "and of start_global_contexts.  File discovery, import_recurse and the composition over whole edit/reload histories are a "
+              "BOUNDED differential on real trees (stated bound), never counted as proved.")
 
 
 def h_start_global_contexts(eng):
@@ -232,6 +238,331 @@ def h_changed_set(eng):
             W(eng.oblige(f"{U}/post.named-reload-forces-exactly-that-file", Forall([NameS], lambda n: z3.Implies(in_files(n), force(n) == (n == only_t)), "p2")), "named")
 
 
+def slice_between(fn_node, first_target, end_pred):
+    body = fn_node.body
+    i0 = next(i for i, st in enumerate(body) if isinstance(st, _ast.Assign) and isinstance(st.targets[0], _ast.Name) and st.targets[0].id == first_target)
+    i1 = next(i for i, st in enumerate(body) if i > i0 and end_pred(st))
+    return body[i0:i1]
+
+
+def root_of(n):
+    from pyvc.values import part, join_fn
+    return join_fn(2)(part(n, 0), part(n, 1))
+
+
+def assume_root_axioms(eng):
+    """projection facts of the two-part join, for every name the hypotheses are instantiated on"""
+    from pyvc.values import part, nparts
+    eng.assume(Forall([NameS], lambda n: z3.And(nparts(root_of(n)) == 2, part(root_of(n), 0) == part(n, 0), part(root_of(n), 1) == part(n, 1)), "root-projection"))
+
+
+def is_kind(n, *kinds):
+    from pyvc.values import part, nparts, part_const
+    return z3.And(nparts(n) >= 2, z3.Or(*[part(n, 0) == part_const(k) for k in kinds]))
+
+
+def decision_state(eng):
+    """an arbitrary state between two blocks of the decision: loaded contexts, files with force flags, the discard set"""
+    ctx_all = Store(eng, "ctx_all", TMap(NameS, TScalar(CtxS)))
+    files = Store(eng, "ctx2files", FILE_T)
+    delete = Store(eng, "ctx_delete", TSet(NameS))
+    F0 = files.snapshot()
+    eng.assume(Forall([NameS], lambda n: z3.Implies(z3.Select(F0["dom"], n), z3.And(
+        *[z3.Select(F0[f".{f}?"], n) for f in ("source", "app_config", "mtime", "autoload", "force", "check_config")])), "files-wf"))
+    from pyvc.values import nparts
+    eng.assume(Forall([NameS], lambda n: z3.Implies(z3.Or(z3.Select(F0["dom"], n), z3.Select(ctx_all.cols["dom"], n)), z3.And(nparts(n) >= 2, nparts(n) <= 4)), "names-wf"))
+    return ctx_all, files, delete
+
+
+def h_will_reload(eng):
+    """the set of module roots being reloaded: r in will_reload  <=>  some file n under modules. with root(n) = r is discarded or forced"""
+    U = "C10/load_scripts#will_reload"
+    eng.max_steps = 2_000_000
+    it = Interpreter(eng)
+    it.obj_may_be_none = True
+    tree, _ = parse_file(I_PY)
+    fn = find_def(tree, "load_scripts")
+    number_loops(fn)
+    stmts = slice_between(fn, "will_reload", lambda st: isinstance(st, _ast.If) and "will_reload" in _ast.unparse(st.test))
+    ctx_all, files, delete = decision_state(eng)
+    F0, D0 = files.snapshot(), delete.snapshot()
+    will = Store(eng, "will_reload", TSet(NameS))
+    wit = Store(eng, "ghost.witness_of_root", TMap(NameS, TScalar(NameS)))
+
+    def set_(i, arg=None):
+        will.cols["in"] = z3.K(NameS, z3.BoolVal(False))
+        return will.view()
+
+    def cond(n):
+        return z3.And(z3.Select(F0["dom"], n), is_kind(n, "modules"), z3.Or(z3.Select(D0["in"], n), z3.Select(F0[".force:v"], n)))
+
+    def Wr(r):
+        return z3.Select(will.cols["in"], r)
+
+    def witness(r):
+        return z3.Select(wit.cols[".v"], r)
+
+    def inv(interp, env_, visited, members):
+        return [Forall([NameS], lambda n: z3.Implies(z3.And(z3.Select(visited, n), cond(n)), Wr(root_of(n))), "every-reloaded-module-root-is-in"),
+                Forall([NameS], lambda r: z3.Implies(Wr(r), z3.And(z3.Select(visited, witness(r)), cond(witness(r)), root_of(witness(r)) == r)), "nothing-else-is-in"),
+                # frame: the loop writes nothing but will_reload
+                files.cols["dom"] == F0["dom"], files.cols[".force:v"] == F0[".force:v"], delete.cols["in"] == D0["in"]]
+
+    def ghost_step(interp, env_, x):
+        # x is the witness of its own root if it put it there and nobody had before
+        r = root_of(x)
+        before = will_before["in"]
+        newly = z3.And(cond(x), z3.Not(z3.Select(before, r)))
+        wit.cols[".v"] = z3.If(newly, z3.Store(wit.cols[".v"], r, x), wit.cols[".v"])
+    will_before = {}
+    fors = sorted([n for n in _ast.walk(_ast.Module(body=stmts, type_ignores=[])) if isinstance(n, _ast.For)], key=lambda n: n.lineno)
+    spec = LoopSpec(inv, [will, wit], name="will_reload", ghost_step=ghost_step)
+    orig_inv = spec.inv
+
+    def inv_recording(interp, env_, visited, members):
+        will_before["in"] = will.cols["in"]     # the value of will_reload when the invariant is assumed (before the body)
+        return orig_inv(interp, env_, visited, members)
+    spec.inv = inv_recording
+    it.loop_specs[("load_scripts", fors[0]._ordinal)] = spec
+    it.func_stack.append("load_scripts")
+    env = Env(vars={"ctx_all": ctx_all.view(), "ctx2files": files.view(), "ctx_delete": delete.view(), "set": set_})
+    k, v = run_catching(it, lambda: it.exec_block(stmts, env))
+    eng.cover(f"exit:{k}")
+    eng.oblige(f"{U}/post.no-exception", k == "ok")
+    if k != "ok":
+        return
+    ob = eng.oblige(f"{U}/post.contains-the-root-of-every-discarded-or-forced-module-file", Forall([NameS], lambda n: z3.Implies(cond(n), Wr(root_of(n))), "p1"))
+    if ob.status == "refuted":
+        ob.witness = {"signature": "will_reload-misses-a-root"}
+    ob = eng.oblige(f"{U}/post.contains-only-such-roots", Forall([NameS], lambda r: z3.Implies(Wr(r), z3.And(cond(witness(r)), root_of(witness(r)) == r)), "p2"))
+    if ob.status == "refuted":
+        ob.witness = {"signature": "will_reload-has-a-foreign-root"}
+
+
+def h_importers(eng):
+    """importer closure: after the loop a loaded context n is (additionally) discarded, and its file forced, iff some module in
+    closure(n) - what import_recurse returns for n, assumed to be the transitive closure of the recorded import edges - has its
+    root in will_reload."""
+    U = "C10/load_scripts#importers"
+    eng.max_steps = 3_000_000
+    it = Interpreter(eng)
+    it.obj_may_be_none = True
+    tree, _ = parse_file(I_PY)
+    fn = find_def(tree, "load_scripts")
+    number_loops(fn)
+    the_if = next(st for st in fn.body if isinstance(st, _ast.If) and "will_reload" in _ast.unparse(st.test))
+    outer = next(st for st in the_if.body if isinstance(st, _ast.For) and _ast.unparse(st.iter) == "ctx_all.items()")
+    inner = next(n for n in _ast.walk(outer) if isinstance(n, _ast.For) and n is not outer)
+    ctx_all, files, delete = decision_state(eng)
+    A0, F0, D0 = ctx_all.snapshot(), files.snapshot(), delete.snapshot()
+    will = Store(eng, "will_reload", TSet(NameS))
+    closure = Store(eng, "ghost.closure", TMap(NameS, TSet(NameS)))      # import_recurse's result per context (assumed contract)
+    eng.assume(Forall([NameS], lambda n: z3.Select(closure.cols["dom"], n), "closure-total"))
+    w2 = Store(eng, "ghost.witness_module", TMap(NameS, TScalar(NameS)))
+    C0 = closure.snapshot()
+    from pyvc.values import nparts
+    # import edges are context names (module_import records 'modules.<m>...' / 'apps.<a>...' names: C11 / module_import contract)
+    eng.assume(Forall([NameS, NameS], lambda n, m: z3.Implies(z3.Select(z3.Select(C0[".in"], n), m), z3.And(nparts(m) >= 2, nparts(m) <= 4)), "edges-are-context-names"))
+
+    def in_closure(n, m):
+        return z3.Select(z3.Select(C0[".in"], n), m)
+
+    def hit(m):
+        return z3.Select(will.cols["in"], root_of(m))
+
+    def D(n):
+        return z3.Select(delete.cols["in"], n)
+
+    def force(n):
+        return z3.Select(files.cols[".force:v"], n)
+
+    def infiles(n):
+        return z3.Select(F0["dom"], n)
+
+    def inall(n):
+        return z3.Select(A0["dom"], n)
+
+    def wm(n):
+        return z3.Select(w2.cols[".v"], n)
+
+    def frame():
+        return [files.cols["dom"] == F0["dom"], files.cols[".autoload:v"] == F0[".autoload:v"], files.cols[".source:v"] == F0[".source:v"],
+                files.cols[".mtime:v"] == F0[".mtime:v"], files.cols[".app_config:v"] == F0[".app_config:v"]]
+
+    def outer_inv(interp, env_, visited, members):
+        return [Forall([NameS, NameS], lambda n, m: z3.Implies(z3.And(z3.Select(visited, n), in_closure(n, m), hit(m)),
+                                                              z3.And(D(n), z3.Implies(infiles(n), force(n)))), "importers-are-in"),
+                Forall([NameS], lambda n: z3.Implies(D(n), z3.Or(z3.Select(D0["in"], n), z3.And(z3.Select(visited, n), in_closure(n, wm(n)), hit(wm(n))))), "only-importers-added"),
+                Forall([NameS], lambda n: z3.Implies(z3.And(infiles(n), force(n)), z3.Or(z3.Select(F0[".force:v"], n),
+                                                                                       z3.And(z3.Select(visited, n), in_closure(n, wm(n)), hit(wm(n))))), "only-importers-forced"),
+                Forall([NameS], lambda n: z3.Implies(z3.Select(D0["in"], n), D(n)), "nothing-removed"),
+                Forall([NameS], lambda n: z3.Implies(z3.And(infiles(n), z3.Select(F0[".force:v"], n)), force(n)), "nothing-unforced")] + frame()
+    pre = {}
+
+    def inner_inv(interp, env_, visited, members):
+        x = env_.lookup("global_ctx_name").t
+        if "D" not in pre:
+            pre["D"], pre["F"] = delete.cols["in"], files.cols[".force:v"]   # the state at the inner loop's entry
+        Dp, Fp = pre["D"], pre["F"]
+        return [Forall([NameS], lambda n: z3.Implies(n != x, z3.And(D(n) == z3.Select(Dp, n), force(n) == z3.Select(Fp, n))), "others-untouched"),
+                Forall([NameS], lambda m: z3.Implies(z3.And(z3.Select(visited, m), hit(m)), z3.And(D(x), z3.Implies(infiles(x), force(x)))), "hit-discards"),
+                z3.Implies(D(x), z3.Or(z3.Select(Dp, x), z3.And(z3.Select(visited, wm(x)), hit(wm(x))))),
+                z3.Implies(z3.And(infiles(x), force(x)), z3.Or(z3.Select(Fp, x), z3.And(z3.Select(visited, wm(x)), hit(wm(x))))),
+                z3.Implies(z3.Select(Dp, x), D(x)), z3.Implies(z3.And(infiles(x), z3.Select(Fp, x)), force(x)),
+                Forall([NameS], lambda n: z3.Implies(n != x, wm(n) == z3.Select(pre["W"], n)), "other-witnesses-kept")] + frame()
+
+    def inner_inv_rec(interp, env_, visited, members):
+        if "W" not in pre:
+            pre["W"] = w2.cols[".v"]
+        return inner_inv(interp, env_, visited, members)
+
+    def inner_ghost(interp, env_, m):
+        x = env_.lookup("global_ctx_name").t
+        w2.cols[".v"] = z3.If(hit(m), z3.Store(w2.cols[".v"], x, m), w2.cols[".v"])
+    it.loop_specs[("load_scripts", outer._ordinal)] = LoopSpec(outer_inv, [delete, files, w2], name="importers")
+    it.loop_specs[("load_scripts", inner._ordinal)] = LoopSpec(inner_inv_rec, [delete, files, w2], name="imports-of-one", ghost_step=inner_ghost)
+    recurse_calls = []
+    imports_memo = Rec(name="ctx2imports")
+    imports_memo._fields["__contains__"] = lambda i, k: SV(eng.fresh("memoised", z3.BoolSort()))
+    imports_memo._fields["get"] = lambda i, k, default=None: closure.view().getitem(k)
+    env = Env(vars={"ctx_all": ctx_all.view(), "ctx2files": files.view(), "ctx_delete": delete.view(), "will_reload": will.view(),
+                    "ctx2imports": imports_memo, "set": lambda i, arg=None: SymPySet([]),
+                    "import_recurse": lambda i, name, visited, memo: recurse_calls.append(name)})
+    it.func_stack.append("load_scripts")
+    k, v = run_catching(it, lambda: it.exec_block([outer], env))
+    eng.cover(f"exit:{k}")
+    eng.oblige(f"{U}/post.no-exception", k == "ok")
+    if k != "ok":
+        return
+
+    def W(ob, what):
+        if ob.status == "refuted":
+            ob.witness = {"signature": f"importers:{what}"}
+        return ob
+    W(eng.oblige(f"{U}/post.every-loaded-importer-of-a-reloaded-module-is-discarded-and-forced", Forall([NameS, NameS], lambda n, m: z3.Implies(
+        z3.And(inall(n), in_closure(n, m), hit(m)), z3.And(D(n), z3.Implies(infiles(n), force(n)))), "p1")), "missed-importer")
+    W(eng.oblige(f"{U}/post.nothing-else-is-discarded", Forall([NameS], lambda n: z3.Implies(D(n), z3.Or(z3.Select(D0["in"], n), z3.And(inall(n), in_closure(n, wm(n)), hit(wm(n))))), "p2")), "extra-discard")
+    W(eng.oblige(f"{U}/post.nothing-else-is-forced", Forall([NameS], lambda n: z3.Implies(z3.And(infiles(n), force(n)), z3.Or(
+        z3.Select(F0[".force:v"], n), z3.And(inall(n), in_closure(n, wm(n)), hit(wm(n))))), "p3")), "extra-force")
+    W(eng.oblige(f"{U}/post.earlier-decisions-are-kept", Forall([NameS], lambda n: z3.And(z3.Implies(z3.Select(D0["in"], n), D(n)),
+                                                                                         z3.Implies(z3.And(infiles(n), z3.Select(F0[".force:v"], n)), force(n))), "p4")), "lost-decision")
+
+
+FILE_T2 = TMap(NameS, TStruct({"force": TScalar(z3.BoolSort()), "autoload": TScalar(z3.BoolSort()), "rel_path": TScalar(z3.StringSort())}))
+
+
+def h_package_widening(eng):
+    """if any file of an app or module package is forced, every file of that package is discarded and only the package's top
+    file (<kind>/<name>/__init__.py or <kind>/<name>.py) stays forced; everything else keeps its decision."""
+    U = "C10/load_scripts#package-widening"
+    eng.max_steps = 4_000_000
+    it = Interpreter(eng)
+    it.obj_may_be_none = True
+    from pyvc.values import part, nparts, PartV
+    tree, _ = parse_file(I_PY)
+    fn = find_def(tree, "load_scripts")
+    number_loops(fn)
+    i0 = next(i for i, st in enumerate(fn.body) if isinstance(st, _ast.Assign) and isinstance(st.targets[0], _ast.Name) and st.targets[0].id == "done")
+    outer = fn.body[i0 + 1]
+    assert isinstance(outer, _ast.For) and _ast.unparse(outer.iter) == "ctx2files.items()", "package widening loop moved"
+    inner = next(n for n in _ast.walk(outer) if isinstance(n, _ast.For) and n is not outer)
+    assume_root_axioms(eng)
+    files = Store(eng, "ctx2files", FILE_T2)
+    delete = Store(eng, "ctx_delete", TSet(NameS))
+    done = Store(eng, "done", TSet(NameS))
+    wd = Store(eng, "ghost.witness_of_done_root", TMap(NameS, TScalar(NameS)))
+    F0, D0 = files.snapshot(), delete.snapshot()
+    eng.assume(Forall([NameS], lambda n: z3.Implies(z3.Select(F0["dom"], n), z3.And(z3.Select(F0[".force?"], n), z3.Select(F0[".autoload?"], n), z3.Select(F0[".rel_path?"], n),
+                                                                                      nparts(n) >= 2, nparts(n) <= 4)), "files-wf"))
+
+    def infiles(n):
+        return z3.Select(F0["dom"], n)
+
+    def D(n):
+        return z3.Select(delete.cols["in"], n)
+
+    def force(n):
+        return z3.Select(files.cols[".force:v"], n)
+
+    def force0(n):
+        return z3.Select(F0[".force:v"], n)
+
+    def Dn(r):
+        return z3.Select(done.cols["in"], r)
+
+    def wdr(r):
+        return z3.Select(wd.cols[".v"], r)
+
+    def kindAM(n):
+        return is_kind(n, "apps", "modules")
+
+    def under(m, r):
+        return z3.And(nparts(m) >= 2, part(m, 0) == part(r, 0), part(m, 1) == part(r, 1))
+
+    def isroot(m, r):
+        # the package's top file, built exactly as the code builds pkg_path / mod_path from the two leading parts
+        p0, p1 = PartV(part(r, 0)), PartV(part(r, 1))
+        pkg = it.concat_str([p0, "/", p1, "/__init__.py"])
+        modp = it.concat_str([p0, "/", p1, ".py"])
+        rel = z3.Select(F0[".rel_path:v"], m)
+        return z3.Or(rel == pkg.t, rel == modp.t)
+
+    def frame():
+        return [files.cols["dom"] == F0["dom"], files.cols[".autoload:v"] == F0[".autoload:v"], files.cols[".rel_path:v"] == F0[".rel_path:v"]]
+
+    def decided(n):
+        r = root_of(n)
+        return z3.If(z3.And(kindAM(n), Dn(r)), z3.And(D(n), force(n) == isroot(n, r)), z3.And(D(n) == z3.Select(D0["in"], n), force(n) == force0(n)))
+
+    def outer_inv(interp, env_, visited, members):
+        return [Forall([NameS], lambda r: z3.Implies(Dn(r), z3.And(z3.Select(visited, wdr(r)), infiles(wdr(r)), force0(wdr(r)), kindAM(wdr(r)), root_of(wdr(r)) == r)), "done-only-for-forced-roots"),
+                Forall([NameS], lambda n: z3.Implies(z3.And(z3.Select(visited, n), infiles(n), force0(n), kindAM(n)), Dn(root_of(n))), "forced-roots-are-done"),
+                Forall([NameS], lambda n: z3.Implies(infiles(n), decided(n)), "decisions"),
+                Forall([NameS], lambda n: z3.Implies(z3.Not(infiles(n)), D(n) == z3.Select(D0["in"], n)), "non-files-untouched")] + frame()
+    pre = {}
+
+    def inner_inv(interp, env_, visited, members):
+        r = env_.lookup("root").t
+        if "D" not in pre:
+            pre["D"], pre["F"] = delete.cols["in"], files.cols[".force:v"]
+        return [Forall([NameS], lambda m: z3.Implies(infiles(m), z3.If(z3.And(z3.Select(visited, m), under(m, r)), z3.And(D(m), force(m) == isroot(m, r)),
+                                                                     z3.And(D(m) == z3.Select(pre["D"], m), force(m) == z3.Select(pre["F"], m)))), "package-members"),
+                Forall([NameS], lambda m: z3.Implies(z3.Not(infiles(m)), D(m) == z3.Select(pre["D"], m)), "non-files"),
+                done.cols["in"] == pre_done["in"], wd.cols[".v"] == pre_done["w"]] + frame()
+    pre_done = {}
+
+    def outer_inv_rec(interp, env_, visited, members):
+        pre_done["in"], pre_done["w"] = done.cols["in"], wd.cols[".v"]
+        return outer_inv(interp, env_, visited, members)
+
+    def outer_ghost(interp, env_, x):
+        r = root_of(x)
+        newly = z3.And(z3.Select(done.cols["in"], r), z3.Not(z3.Select(pre_done["in"], r)))
+        wd.cols[".v"] = z3.If(newly, z3.Store(wd.cols[".v"], r, x), wd.cols[".v"])
+    it.loop_specs[("load_scripts", outer._ordinal)] = LoopSpec(outer_inv_rec, [delete, files, done, wd], name="packages", ghost_step=outer_ghost)
+    it.loop_specs[("load_scripts", inner._ordinal)] = LoopSpec(inner_inv, [delete, files], name="package-members")
+    done.cols["in"] = z3.K(NameS, z3.BoolVal(False))
+    env = Env(vars={"ctx2files": files.view(), "ctx_delete": delete.view(), "done": done.view()})
+    it.func_stack.append("load_scripts")
+    k, v = run_catching(it, lambda: it.exec_block([outer], env))
+    eng.cover(f"exit:{k}")
+    eng.oblige(f"{U}/post.no-exception", k == "ok")
+    if k != "ok":
+        return
+
+    def W(ob, what):
+        if ob.status == "refuted":
+            ob.witness = {"signature": f"package-widening:{what}"}
+        return ob
+    trig_w = wdr     # witness of 'some forced file of the package'
+    W(eng.oblige(f"{U}/post.a-package-with-a-forced-file-is-discarded-whole-and-only-its-top-file-stays-forced", Forall([NameS, NameS], lambda n, f: z3.Implies(
+        z3.And(infiles(n), infiles(f), force0(f), kindAM(f), root_of(f) == root_of(n), kindAM(n)), z3.And(D(n), force(n) == isroot(n, root_of(n)))), "p1")), "package")
+    W(eng.oblige(f"{U}/post.everything-else-keeps-its-decision", Forall([NameS], lambda n: z3.Implies(
+        z3.And(infiles(n), z3.Not(z3.And(kindAM(n), infiles(trig_w(root_of(n))), force0(trig_w(root_of(n))), kindAM(trig_w(root_of(n))), root_of(trig_w(root_of(n))) == root_of(n)))),
+        z3.And(D(n) == z3.Select(D0["in"], n), force(n) == force0(n))), "p2")), "others")
+    W(eng.oblige(f"{U}/post.contexts-without-a-file-are-untouched", Forall([NameS], lambda n: z3.Implies(z3.Not(infiles(n)), D(n) == z3.Select(D0["in"], n)), "p3")), "non-files")
+
+
 def h_delete_and_load(eng):
     """the delete loop and the load loop: exactly ctx_delete-and-loaded contexts are stopped and removed (once); exactly the
     auto-loaded forced files are loaded, flagged 'reload' iff they were discarded"""
@@ -305,6 +636,9 @@ def harnesses():
         hs.append(Harness(f"module_import[{c[0]},level={c[1]},rel={c[2]}]", c11.h_module_import(c), units=[(GC_PY, "GlobalContext.module_import")]))
     hs.append(Harness("start_global_contexts", h_start_global_contexts, units=[(I_PY, "start_global_contexts")]))
     hs.append(Harness("load_scripts.changed-set", h_changed_set, units=[(I_PY, "load_scripts")], max_paths=20000))
+    hs.append(Harness("load_scripts.will_reload", h_will_reload, units=[(I_PY, "load_scripts")], max_paths=20000))
+    hs.append(Harness("load_scripts.importers", h_importers, units=[(I_PY, "load_scripts")], max_paths=20000))
+    hs.append(Harness("load_scripts.package-widening", h_package_widening, units=[(I_PY, "load_scripts")], max_paths=20000))
     hs.append(Harness("load_scripts.delete-and-load", h_delete_and_load, units=[(I_PY, "load_scripts")]))
     units_b = [(I_PY, "load_scripts"), (GC_PY, "GlobalContext.module_import"), (GC_PY, "GlobalContextMgr.load_file")]
     hs.append(Harness("bounded.reload", bounded_reload(0, 200), units=units_b, kind="bounded"))
